@@ -15,6 +15,11 @@ RULE = (
     "(b) balanced trees (up to 4096 leaves: exactly 1 flush with every leaf request) and chains of n sequentially "
     "dependent requests (exactly n flushes of 1 item). distinct = program hash; non-trivial = at least 2 tasks and 1 flush."
 )
+RULE += (
+    " One program in eight is a 'revisit' program: a task awaited by two parents waits (itself or through a "
+    "child / grandchild) for an item that a sibling then flushes by hand in the same traversal - it must go on "
+    "and join the pending batches before anything is flushed."
+)
 ASSUMPTIONS = ["the statement restricts itself to programs whose tasks interact only by yielding"]
 UNIT_TIMEOUT = {"quick": 150, "thorough": 2400}
 
